@@ -48,9 +48,15 @@ class Protocol(Component):
             # connection the call came from answers it
             if (
                 getattr(args[0], 'node_call_id', False) is not False
-                and getattr(args[0], 'node_sock', None) is self.__sock
+                and getattr(args[0], 'node_sock', None) is self.__origin()
             ):
                 self.send_result(source_event.node_call_id, source_event.value)
+
+    def __origin(self):
+        # what a received call is tagged with: the connection it came in on.
+        # Client-side protocols have no socket (None for every one of them):
+        # there the protocol itself stands for its connection
+        return self.__sock if self.__sock is not None else self
 
     def send(self, event):
         if self.__send_event_firewall and not self.__send_event_firewall(event, self.__sock):
@@ -110,7 +116,7 @@ class Protocol(Component):
             event.success = True  # fire %s_success event
             event.success_channels = ('node_result',)
             event.node_call_id = id
-            event.node_sock = self.__sock
+            event.node_sock = self.__origin()
 
             self.fire(event, *event.channels)
 
